@@ -11,7 +11,9 @@
                | hex+       the value is  hex ++ data   (model function [view], proved sound)
      script <sym|exec> <new|old> <op>/<op>/...
          op = n:<names>:<length|->  |  u:<var>:<chunk>  |  c:<var>  |  d:<var>
-       -> ok EV;EV;...   EV = done | E:<error> | D:<length|->:key=hex,key=hex,... *)
+       -> ok EV;EV;...   EV = done | E:<error> | D:<length|->:key=hex,key=hex,...
+     hgd <sym|exec> <type> <base algo> <data>      hashutil.hash_git_data
+       -> ok hg=RES     (RES as above, key "sha1_git") *)
 let err_name = function
   | ValueError -> "ValueError" | TypeError -> "TypeError" | KeyError -> "KeyError"
   | AttributeError -> "AttributeError" | MissingData -> "MissingData" | OtherException -> "Other(Exception)"
@@ -58,4 +60,10 @@ let () = serve (function
         | EvDone -> "done"
         | EvErr e -> "E:" ^ err_name e
         | EvDigest d -> "D:" ^ show_dict hex_of_bytes d) evs)
+  | ["hgd"; o; ty; base; data] ->
+      (* hash_git_data(data, type, base): same answer format as a one-route run *)
+      let d = bytes_of_hex data in
+      "ok hg=" ^ (match hash_git_data (oracle_of o) d (bytes_of_hex ty) (bytes_of_hex base) with
+                  | Ok v -> "O:-:" ^ hex_of_bytes (bytes_of_hex "736861315f676974") ^ "=" ^ show_view d v
+                  | Err e -> "E:" ^ err_name e)
   | _ -> "err bad_request")
